@@ -185,6 +185,10 @@ fn gen_free_text(t: &mut Tape) -> String {
 }
 
 fn gen_file_name(t: &mut Tape, bg: bool) -> String {
+    // words with a meaning somewhere in the osu! ecosystem: as a file name they are just names
+    if t.chance(8) {
+        return (*t.pick(&["virtual", "Virtual", "none", "None", "null", "default", "auto", "0", "-1", "true", "audio.mp3", "bg", "Background", "Video", "Break"])).to_string();
+    }
     let mut s = gen_free_text(t).replace('\\', "");
     if t.chance(50) {
         s.push_str(*t.pick(&[".jpg", ".png", ".mp4", ".avi", ".MOV", ".mp3", ".ogg", ".flv", "mpg", ".m4v", ".wmv", ".jpeg", ".osb"]));
@@ -283,6 +287,11 @@ fn gen_edit(t: &mut Tape) -> Edit {
             Edit::Bookmarks((0..n).map(|_| if t.chance(10) { i32::MIN } else { gen_i32(t, false) }).collect())
         }
         13 => {
+            if t.chance(12) {
+                // the crate's public default palette, whole or in part, as an explicit value
+                let k = *t.pick(&[4usize, 4, 3, 1]);
+                return Edit::ComboColours(rosu_map::section::colors::Colors::DEFAULT_COMBO_COLORS.iter().take(k).map(|c| [c.red(), c.green(), c.blue()]).collect());
+            }
             let n = t.below(9);
             Edit::ComboColours((0..n).map(|_| [t.byte(), t.byte(), t.byte()]).collect())
         }
